@@ -81,4 +81,78 @@ theorem anyOpen_iff_sum {e : Env F} {s : State F} {mst : AStar.St F} (ha : SrchA
     have hlt : k < (s.ia "is_open").length := by rw [ha.l_open]; exact hk
     simp [List.getD_eq_getElem?_getD, hlt, hkx]
 
+/-- what the loop is entered with: constants, abstraction of `mst`, `num_open` counted -/
+structure LoopInv (e : Env F) (s : State F) (mst : AStar.St F) : Prop where
+  run : s.ctl = .run
+  const : SrchConst e s
+  abs : SrchAbs e s mst
+  num : s.ienv "num_open" = sumI (s.ia "is_open")
+
+theorem mainLoop_cond {e : Env F} {s : State F} {mst : AStar.St F} (hl : LoopInv e s mst) :
+    (BE.cmpI .gt (.var "num_open") (.lit 0)).ok s = true ∧
+    (BE.cmpI .gt (.var "num_open") (.lit 0)).eval s = anyOpen e mst := by
+  refine ⟨by simp [BE.ok, IE.ok], ?_⟩
+  simp only [BE.eval, IE.eval, cmpInt, hl.num]
+  by_cases h : anyOpen e mst = true
+  · rw [h]; simpa using (anyOpen_iff_sum hl.abs).1 h
+  · have : ¬ 0 < sumI (s.ia "is_open") := fun h' => h ((anyOpen_iff_sum hl.abs).2 h')
+    simp only [Bool.not_eq_true] at h
+    rw [h]; simpa using this
+
+/-- **the main loop follows the model's `loop`** (induction on the model's fuel `n`; the program needs `n` units of
+    `while` fuel for the iterations plus `h * w` for the parent walk of `_reconstruct_path`):
+    * `loop e n mst = found st'`: the program returns, and for the chain of the model's parent walk (if it succeeds and
+      stays in the raster) `path_img` received `g[c]` on exactly the cells of the chain, where the array `g`
+      (`d_from_start`) holds `st'.g`;
+    * `loop e n mst = exhausted st'`: the program leaves the loop normally and `path_img` is untouched. -/
+theorem main_loop (e : Env F) : ∀ (n : Nat) (mst : AStar.St F) (s : State F) (fuel : Nat),
+    LoopInv e s mst → n + e.h * e.w ≤ fuel →
+    (∀ st', loop e n mst = .found st' → ∀ m chain, walk st'.parent e.start m e.goal = some chain →
+      (∀ c ∈ chain, inside e.h e.w c = true) → chain.length ≤ e.h * e.w →
+      (exec fuel mainLoop s).ctl = .ret ∧ ∃ g : List F,
+        (∀ c, inside e.h e.w c = true → st'.g c = g.getD (cidx e.w c) Fl.nan) ∧
+        (exec fuel mainLoop s).fa "path_img" = chainW g e.w (e.start :: chain.dropLast) (s.fa "path_img")) ∧
+    (∀ st', loop e n mst = .exhausted st' →
+      (exec fuel mainLoop s).ctl = .run ∧ (exec fuel mainLoop s).fa "path_img" = s.fa "path_img")
+  | 0, mst, s, fuel, hl, hf => by simp [loop]
+  | n + 1, mst, s, fuel, hl, hf => by
+    obtain ⟨fuel, rfl⟩ : ∃ f, fuel = f + 1 := ⟨fuel - 1, by omega⟩
+    obtain ⟨hok, hcond⟩ := mainLoop_cond hl
+    unfold loop
+    by_cases hany : anyOpen e mst = true
+    swap
+    · simp only [Bool.not_eq_true] at hany
+      rw [hany] at hcond
+      have hd : exec (fuel + 1) mainLoop s = s := exec_while_done fuel _ _ s hok hcond
+      simp only [hany, Bool.not_false, if_true]
+      refine ⟨(by intro st' h; cases h), ?_⟩
+      intro st' _
+      rw [hd]; exact ⟨hl.run, rfl⟩
+    · rw [hany] at hcond
+      simp only [hany, Bool.not_true, Bool.false_eq_true, if_false]
+      cases hmin : minCostOpen e mst with
+      | none => simp
+      | some u =>
+        simp only []
+        by_cases hug : u = e.goal
+        · subst hug
+          simp only [if_true]
+          refine ⟨?_, by intro st' h; cases h⟩
+          intro st' hst' m chain hw hin hlen
+          simp only [LoopEnd.found.injEq] at hst'
+          subst hst'
+          have hg := iter_goal e mst s hl.run hl.const hl.abs hmin fuel m chain hw hin (by omega)
+          have hr : exec (fuel + 1) mainLoop s = exec fuel whileBody s :=
+            exec_while_ret fuel _ _ s hok hcond hg.1
+          rw [hr]
+          exact ⟨hg.1, s.fa "d_from_start", fun c hc => hl.abs.g c hc, hg.2⟩
+        · simp only [hug, if_false]
+          have hx := iter_expand e mst s hl.run hl.const hl.abs u hmin hug fuel
+          have hr : exec (fuel + 1) mainLoop s = exec fuel mainLoop (exec fuel whileBody s) :=
+            exec_while_to hok hcond rfl hx.1
+          have ih := main_loop e n (expand e mst u) (exec fuel whileBody s) fuel
+            ⟨hx.1, hx.2.1, hx.2.2.1, hx.2.2.2.1⟩ (by omega)
+          rw [hr, ← hx.2.2.2.2]
+          exact ih
+
 end XrsVerif.IL
